@@ -408,3 +408,33 @@ func c08PathShapes(r *ev.Result, base string) {
 	r.AddDistinct(n)
 	r.Set("cache_path_shapes", n)
 }
+
+// c08RealSharedDirs: the real program with its log and its certificate cache
+// below the same directories, none of which exists yet.  It may refuse to
+// start; if it starts, every directory it made on the way to the key is the
+// owner's alone.
+func c08RealSharedDirs(r *ev.Result, base string) {
+	for _, shape := range []string{"same-directory", "log-one-level-up"} {
+		root, _ := os.MkdirTemp(base, "shared-")
+		op := filepath.Join(root, "op", "2024")
+		logf := filepath.Join(op, "crs.json")
+		if "log-one-level-up" == shape {
+			logf = filepath.Join(root, "op", "crs.json")
+		}
+		cache := filepath.Join(op, "cert.txtar")
+		p, _, err := startReal(root, "-listen-address", "127.0.0.1:0", "-log", logf, "-tls-certificate-cache", cache)
+		r.Add(1)
+		if nil == err {
+			stopReal(p)
+			p.Close()
+			for d := filepath.Dir(cache); len(d) > len(root); d = filepath.Dir(d) {
+				if fi, err := os.Stat(d); nil == err && 0 != fi.Mode().Perm()&0o077 {
+					r.Violate(ev.Violation{Signature: "binary/key-directory-not-owner-only/" + shape, Kind: "c08path", Replay: map[string]string{"cache_path_shape": "log and cache share new directories: " + shape},
+						What: fmt.Sprintf("real binary with -log %s -tls-certificate-cache %s (none of the directories existed): it started, and %s, on the way to the private key, has mode %v", strings.TrimPrefix(logf, root), strings.TrimPrefix(cache, root), strings.TrimPrefix(d, root), fi.Mode().Perm())})
+					break
+				}
+			}
+		}
+		os.RemoveAll(root)
+	}
+}
